@@ -25,8 +25,12 @@ UpdateSecs == {"modify", "delete"}
 (*   change element   [id, v, vis, m]      vis = Visible flag on input,      *)
 (*                                         m   = unique mark (neutral tag)   *)
 (*   history entry    [v, vis, m]                                            *)
-(*   history          [k, id, fail, vs]    fail = the datasource fails with  *)
-(*                                         an error that is not "not found"  *)
+(*   history          [k, id, fail, vs]    fail = "no": the lookup succeeds; *)
+(*        "other": the history exists (vs) but the lookup fails with an      *)
+(*        error the datasource does not classify as not-found (I/O error,   *)
+(*        timeout, ...); "notfound": the lookup fails with an error of the  *)
+(*        datasource's own that its NotFound method classifies as not-found *)
+(*        (= no history, like a (k, id) without entry)                      *)
 (*   case             [ign, opt, idp, nile, ch, hist]                        *)
 (*        ch[section][kind] = sequence of change elements                    *)
 (*        hist              = sequence of histories; a (k, id) without entry *)
@@ -46,11 +50,14 @@ UpdateSecs == {"modify", "delete"}
 NoCells  == [node |-> << >>, way |-> << >>, relation |-> << >>]
 NoChange == [create |-> NoCells, modify |-> NoCells, delete |-> NoCells]
 
-HasHist(c, k, id) == \E i \in 1 .. Len(c.hist) : c.hist[i].k = k /\ c.hist[i].id = id
+HasEntry(c, k, id) == \E i \in 1 .. Len(c.hist) : c.hist[i].k = k /\ c.hist[i].id = id
 HistRec(c, k, id) == c.hist[CHOOSE i \in 1 .. Len(c.hist) : c.hist[i].k = k /\ c.hist[i].id = id]
-Fails(c, k, id)   == HasHist(c, k, id) /\ HistRec(c, k, id).fail
-\* the stored versions of (k, id): empty when there is no history (or none readable)
-Stored(c, k, id)  == IF HasHist(c, k, id) /\ ~HistRec(c, k, id).fail THEN HistRec(c, k, id).vs ELSE << >>
+\* a history of (k, id) exists (whether or not the lookup succeeds)
+HasHist(c, k, id) == HasEntry(c, k, id) /\ HistRec(c, k, id).fail # "notfound"
+\* ... but the lookup fails with an error that is not a not-found error
+Fails(c, k, id)   == HasEntry(c, k, id) /\ HistRec(c, k, id).fail = "other"
+\* the stored versions of (k, id) - also when the lookup fails; empty when there is no history
+Stored(c, k, id)  == IF HasHist(c, k, id) THEN HistRec(c, k, id).vs ELSE << >>
 
 Out(k, id, e, vis) == [k |-> k, id |-> id, v |-> e.v, vis |-> vis, m |-> e.m]
 CreateAct(k, el)   == [t |-> "create", osm |-> <<Out(k, el.id, el, TRUE)>>, old |-> << >>, new |-> << >>]
@@ -64,7 +71,7 @@ UpdateAct(s, k, el, h) ==
 \* osm.HistoryDatasource.{Node,Way,Relation}History + a failing datasource
 DsHistory(c, k, id) ==
   IF ~HasHist(c, k, id) THEN [err |-> "notfound", vs |-> << >>]
-  ELSE IF HistRec(c, k, id).fail THEN [err |-> "other", vs |-> << >>]
+  ELSE IF Fails(c, k, id) THEN [err |-> "other", vs |-> << >>]
   ELSE [err |-> "nil", vs |-> HistRec(c, k, id).vs]
 
 \* the loop `for i, node := range nodes { if v := node.Version; v < n.Version && v > max {max = v; loc = i} }`
@@ -171,7 +178,7 @@ Offset(c, s, k) ==
     (IF SecIdx(s) > 1 THEN SecLen(c, "create") ELSE 0) + (IF SecIdx(s) > 2 THEN SecLen(c, "modify") ELSE 0)
   + (IF KindIdx(k) > 1 THEN Len(c.ch[s].node) ELSE 0) + (IF KindIdx(k) > 2 THEN Len(c.ch[s].way) ELSE 0)
 
-\* the property is silent about datasource failures other than "not found"
+\* a modified/deleted element whose lookup fails with an error other than "not found"
 UpdateEls(c)      == {f \in ToSet(Flat(c)) : f.s \in UpdateSecs}
 NumEls(c)         == SecLen(c, "create") + SecLen(c, "modify") + SecLen(c, "delete")
 TouchesFailure(c) == \E f \in UpdateEls(c) : Fails(c, f.k, f.el.id)
@@ -216,8 +223,14 @@ DiffOK(c, actions) ==
 \* read c.ign and never c.opt (IgnoreInconsistency, Threshold, ChildFilter, an explicit IgnoreMissingChildren(false)),
 \* nor c.idp (which concrete ids stand for the abstract ones): the same observation is demanded for every option set
 \* and every id table.
+\* Datasource failures other than not-found: the property does not say which error Change has to return then, so any
+\* error is accepted.  But the property does say what a diff looks like: every modified or deleted element is paired
+\* with the stored version with the greatest number below its own, and only a *missing* history / earlier version may
+\* turn it into a create.  So if Change returns a diff although a lookup failed, the diff must still be the exact one
+\* with respect to the histories that exist: an element whose history has an earlier version may not come back as a
+\* create (nor may a due typed error be dropped) just because its lookup failed.
 JudgeOK(c, g) ==
-  IF TouchesFailure(c) THEN TRUE
+  IF TouchesFailure(c) THEN (g.err = "none" => (~ErrorDue(c) /\ DiffOK(c, g.actions)))
   ELSE IF ErrorDue(c)
   THEN \* reported as the documented typed error, naming an element that lacks its predecessor (which one
        \* when there are several is not stated)
@@ -225,7 +238,10 @@ JudgeOK(c, g) ==
   ELSE g.err = "none" /\ DiffOK(c, g.actions)
 
 Why(c, g) ==
-  IF ErrorDue(c) THEN <<"expected a typed error for one of", {<<f.k, f.el.id>> : f \in MissingEls(c)}, "got", g.err, g.ek, g.eid>>
+  IF TouchesFailure(c) /\ ~ErrorDue(c)
+  THEN <<"a lookup failed; the diff returned instead of an error is not the exact diff: wrong actions in cells",
+         {<<s, k>> \in {"create", "modify", "delete"} \X KindSet : Len(g.actions) # NumEls(c) \/ ~CellOK(c, s, k, g.actions)}>>
+  ELSE IF ErrorDue(c) THEN <<"expected a typed error for one of", {<<f.k, f.el.id>> : f \in MissingEls(c)}, "got", g.err, g.ek, g.eid>>
   ELSE IF g.err # "none" THEN <<"no error expected, got", g.err, g.ek, g.eid>>
   ELSE IF Len(g.actions) # NumEls(c) THEN <<"expected", NumEls(c), "actions, got", Len(g.actions)>>
   ELSE <<"wrong actions in cells", {<<s, k>> \in {"create", "modify", "delete"} \X KindSet : ~CellOK(c, s, k, g.actions)}>>
@@ -280,9 +296,11 @@ ProfAt(n)  == IdProfiles[(n % Len(IdProfiles)) + 1]
 AdvVis(s) == s = "delete"
 
 MkHist(k, id, vseq, base) ==
-  [k |-> k, id |-> id, fail |-> FALSE,
+  [k |-> k, id |-> id, fail |-> "no",
    vs |-> [i \in 1 .. Len(vseq) |-> [v |-> vseq[i], vis |-> ((vseq[i] + i) % 2 = 0), m |-> base + i]]]
-FailHist(k, id) == [k |-> k, id |-> id, fail |-> TRUE, vs |-> << >>]
+\* the history exists but its lookup fails / the datasource answers with its own not-found error
+FailHist(k, id, vseq, base) == [MkHist(k, id, vseq, base) EXCEPT !.fail = "other"]
+NotFoundHist(k, id)         == [k |-> k, id |-> id, fail |-> "notfound", vs |-> << >>]
 CellMark(s, k)  == 10 * (3 * (SecIdx(s) - 1) + KindIdx(k))
 
 HistSeqs(V) == SetToAllKPermutations(V)        \* every subset of V stored in every order (326 for V = 1 .. 5)
@@ -314,7 +332,7 @@ WorldHist ==
     MkHist("relation", 1, <<4, 2, 3>>, 500), MkHist("relation", 3, <<1, 5, 2>>, 600)>>
 \* a second world: a failing datasource for node 1, an empty history, histories in other orders
 World2Hist ==
-  <<FailHist("node", 1), MkHist("node", 2, <<2>>, 200), MkHist("way", 1, << >>, 300), MkHist("way", 2, <<3, 1>>, 400),
+  <<FailHist("node", 1, <<3, 1, 2>>, 100), MkHist("node", 2, <<2>>, 200), MkHist("way", 1, << >>, 300), MkHist("way", 2, <<3, 1>>, 400),
     MkHist("relation", 2, <<1, 2, 3, 4, 5>>, 500), MkHist("relation", 3, <<5, 4, 3, 2, 1>>, 600)>>
 
 CellList == <<<<"create", "node">>, <<"create", "way">>, <<"create", "relation">>,
@@ -354,6 +372,24 @@ Failing ==
     ch |-> AddEl(AddEl(NoChange, CellList[a][1], CellList[a][2], e1[1], e1[2]), CellList[b][1], CellList[b][2], e2[1], e2[2])] :
       a \in {1, 4, 5, 7}, b \in {4, 6, 7, 9}, e1 \in {<<1, 2>>, <<2, 3>>}, e2 \in {<<1, 3>>, <<3, 2>>, <<2, 1>>}, ign \in BOOLEAN}
 
+\* --- Faulty: a fault-injecting datasource.  Per kind: id 1 exists (<<3, 1, 2>>) but its lookup fails with a
+\* non-not-found error, id 2 is answered with the datasource's own not-found error, id 3 is fine (<<1, 5, 2>>).
+\* One element, and two elements in every pair of update cells (also the same cell), with and without ignore-missing.
+\* Shapes <<id, v>>: <<1, 3>> failing lookup, predecessor exists; <<1, 1>> failing lookup, no earlier version;
+\* <<2, 3>> not-found; <<3, 2>> fine.
+FaultyHist ==
+  <<FailHist("node", 1, <<3, 1, 2>>, 100), NotFoundHist("node", 2), MkHist("node", 3, <<1, 5, 2>>, 200),
+    FailHist("way", 1, <<3, 1, 2>>, 300), NotFoundHist("way", 2), MkHist("way", 3, <<1, 5, 2>>, 400),
+    FailHist("relation", 1, <<3, 1, 2>>, 500), NotFoundHist("relation", 2), MkHist("relation", 3, <<1, 5, 2>>, 600)>>
+FaultyShapes == {<<1, 3>>, <<1, 1>>, <<2, 3>>, <<3, 2>>}
+Faulty ==
+  {[ign |-> ign, nile |-> FALSE, opt |-> NoOpt, idp |-> "base", hist |-> FaultyHist,
+    ch |-> AddEl(NoChange, s, k, e[1], e[2])] : s \in UpdateSecs, k \in KindSet, e \in FaultyShapes, ign \in BOOLEAN}
+  \cup
+  {[ign |-> ign, nile |-> FALSE, opt |-> NoOpt, idp |-> "base", hist |-> FaultyHist,
+    ch |-> AddEl(AddEl(NoChange, CellList[ab[1]][1], CellList[ab[1]][2], e1[1], e1[2]), CellList[ab[2]][1], CellList[ab[2]][2], e2[1], e2[2])] :
+      ab \in {x \in (4 .. 9) \X (4 .. 9) : x[1] <= x[2]}, e1 \in FaultyShapes, e2 \in FaultyShapes, ign \in BOOLEAN}
+
 \* --- Optioned: every option set x one modified/deleted element that lacks / has its predecessor ----------------
 \* (<<1, 2>> history without earlier version, <<2, 3>> no history at all, <<1, 3>> predecessor present)
 Optioned ==
@@ -379,7 +415,8 @@ IdTables ==
 HS5 == HistSeqs(1 .. 5)
 DrawCell(n)  == <<RandomElement(0 .. 2), RandomElement(1 .. 2), RandomElement(1 .. 4), RandomElement(BOOLEAN),
                   RandomElement(1 .. 2), RandomElement(1 .. 4), RandomElement(BOOLEAN)>>
-DrawHist(n)  == <<RandomElement(1 .. 4), RandomElement(HS5)>>      \* <<1, _>> = no history at all
+DrawHist(n)  == <<RandomElement(1 .. 4), RandomElement(HS5), RandomElement(1 .. 12)>>
+                \* <<1, _, _>> = no history at all; <<_, _, 1>> the lookup fails; <<_, _, 2>> own not-found error
 \* bias = TRUE bends a draw towards changes that succeed without the ignore option: every history exists and
 \* stores version 1 (in front or at the end), no element has version 1
 CellOf(d, s, k, bias) ==
@@ -389,7 +426,10 @@ CellOf(d, s, k, bias) ==
 HistOf(d, k, id, base, bias) ==
   IF bias THEN <<MkHist(k, id, IF \E i \in 1 .. Len(d[2]) : d[2][i] = 1 THEN d[2]
                                ELSE IF Len(d[2]) % 2 = 0 THEN <<1>> \o d[2] ELSE d[2] \o <<1>>, base)>>
-  ELSE IF d[1] = 1 THEN << >> ELSE <<MkHist(k, id, d[2], base)>>
+  ELSE IF d[1] = 1 THEN << >>
+  ELSE IF d[3] = 1 THEN <<FailHist(k, id, d[2], base)>>
+  ELSE IF d[3] = 2 THEN <<NotFoundHist(k, id)>>
+  ELSE <<MkHist(k, id, d[2], base)>>
 RandCase(n) ==
   CHOOSE c \in
     {[ign |-> o[1], nile |-> o[2], opt |-> o[4], idp |-> (IF o[5] = "neg" /\ ~o[1] THEN "base" ELSE o[5]),
@@ -407,12 +447,12 @@ RandCase(n) ==
         h \in {<<DrawHist(n), DrawHist(n), DrawHist(n), DrawHist(n), DrawHist(n), DrawHist(n)>>}} : TRUE
 RandomSeq == [n \in 1 .. NRandom |-> RandCase(n)]
 
-StaticCases == Singles \cup Pairs \cup Houses \cup Failing \cup Optioned \cup IdTables
+StaticCases == Singles \cup Pairs \cup Houses \cup Failing \cup Faulty \cup Optioned \cup IdTables
 
 (* ======================================================================== *)
 (* GENERATING MACHINE + SPECIFICATION                                       *)
 (* ======================================================================== *)
-BuildWorlds == {WorldHist, World2Hist}
+BuildWorlds == {WorldHist, World2Hist, FaultyHist}
 LastCell(ch) == LET S == {j \in 1 .. 9 : Len(ch[CellList[j][1]][CellList[j][2]]) > 0} IN
                 IF S = {} THEN 1 ELSE CHOOSE j \in S : \A j2 \in S : j2 <= j
 Size(ch) == NumEls([ch |-> ch])
